@@ -4,7 +4,9 @@
    Specs: Spec/LexSpec.v, Spec/GrammarSpec.v, Spec/LocSpec.v. *)
 From PyGql Require Import Lang.Parser Spec.LexSpec Spec.GrammarSpec Spec.LocSpec
   Proofs.BlockStringProofs Proofs.LexProofs Proofs.VerbatimProofs Proofs.ParserTop
-  Proofs.GrammarProofs Proofs.EntryProofs.
+  Proofs.GrammarProofs Proofs.EntryProofs Spec.DocGrammarSpec Proofs.DocEntryProofs
+  Spec.SdlGrammarSpec Proofs.SdlEntryProofs Spec.ReparseSpec Proofs.ReparseProofs
+  Proofs.SpanOrderProofs.
 
 (* ---- literal decoding ---- *)
 
@@ -74,6 +76,57 @@ Theorem C02_shape_type : forall fl s t,
 Proof. exact parse_type_str_sound. Qed.
 Print Assumptions C02_shape_type.
 
+(* Executable documents: the tree returned is the tree of a Document
+   derivation of the token list.  Every node of a derivation -- document,
+   operation, fragment, variable definition, selection set, field, spread,
+   inline fragment, argument, directive, name, type, value -- carries as loc
+   exactly (start of the first token it derives, end of the last one), absent
+   under no_location; kinds, names, operation kinds and the order of
+   definitions, selections, arguments, variables, directives and values are
+   those of the tokens.  This is the "spans" and "shape" clause at full
+   strength for the executable language. *)
+Theorem C02_shape_document : forall fl s d,
+  allow_type_system fl = false ->
+  parse_document fl s = Ok d ->
+  exists ts, lex s = Ok ts /\ D_document_exec (no_location fl) (fragment_variables fl) ts d.
+Proof. exact parse_document_exec_sound. Qed.
+Print Assumptions C02_shape_document.
+
+(* The same for every document, type-system definitions and extensions
+   included (descriptions, field / argument / input value / enum value
+   definitions, operation type definitions, implements and union member lists,
+   directive locations): the tree is a derivation's tree, so every node carries
+   exactly the span of its tokens. *)
+Theorem C02_shape_document_full : forall fl s d,
+  parse_document fl s = Ok d ->
+  exists ts, lex s = Ok ts /\
+    D_document (no_location fl) (fragment_variables fl) (allow_type_system fl) ts d.
+Proof. exact parse_document_sound_full. Qed.
+Print Assumptions C02_shape_document_full.
+
+(* ---- the spanned text parses back to an equal node ---- *)
+
+(* Whenever a segment seg of the token list of an accepted text derives a value
+   (every Value / Variable node of every tree is the tree of such a segment,
+   see the shape theorems), the text from the start of its first token to the
+   end of its last token, parsed by parse_value, gives the same node with all
+   spans moved to start at 0 -- for every flag triple, for Const and non-Const
+   positions.  Likewise for types and parse_type.  (Lexer locality is proved on
+   the declarative lexical grammar.) *)
+Theorem C02_reparse_value : forall fl s ts pre seg post c v,
+  lex s = Ok ts -> ts = pre ++ seg ++ post -> D_value (no_location fl) c seg v ->
+  parse_value_str fl (substring s (seg_start seg) (seg_end seg))
+  = Ok (shift_value (seg_start seg) v).
+Proof. exact reparse_value. Qed.
+Print Assumptions C02_reparse_value.
+
+Theorem C02_reparse_type : forall fl s ts pre seg post t,
+  lex s = Ok ts -> ts = pre ++ seg ++ post -> D_type (no_location fl) seg t ->
+  parse_type_str fl (substring s (seg_start seg) (seg_end seg))
+  = Ok (shift_ty (seg_start seg) t).
+Proof. exact reparse_type. Qed.
+Print Assumptions C02_reparse_type.
+
 (* With positions disabled no node of the tree has a loc (documents, values,
    types; every flag combination otherwise). *)
 Theorem C02_no_location : forall fl s, no_location fl = true ->
@@ -82,6 +135,16 @@ Theorem C02_no_location : forall fl s, no_location fl = true ->
   /\ match parse_type_str fl s with Ok t => q_ty loc_absent t | _ => True end.
 Proof. exact no_location_trees. Qed.
 Print Assumptions C02_no_location.
+
+(* Token offsets increase along the token list and stay inside the text: the
+   span mkloc of ANY non-empty segment of the token list of a text is ordered
+   and inside the text (present exactly when positions are enabled).  By the
+   shape theorems every loc of every node is the mkloc of such a segment. *)
+Theorem C02_segment_span_ok : forall nl s ts pre seg post,
+  lex s = Ok ts -> ts = pre ++ seg ++ post -> seg <> [] ->
+  loc_span_ok nl (length s) (mkloc nl seg).
+Proof. exact segment_span_ok. Qed.
+Print Assumptions C02_segment_span_ok.
 
 (* full strength for documents: every loc is present exactly when enabled,
    ordered and inside the text *)
